@@ -83,7 +83,15 @@ Definition step_holds (dir : path) (pre : fs) (st : step * step_res * fs) : bool
       | (_, Ok e) => layout_exact dir (clear_paths_le e) post
       | (_, Err _) => false
       end
-  | _, _ => true
+  | SReadWrite, SErr _ =>
+      (* a read -> write cycle fails only where the specified reader or writer fails *)
+      match spec_read dir pre with
+      | (_, Ok e) => match write_to_layer_dir spec_beh_order spec_writer_table e dir pre with
+                     | (_, Ok _) => false
+                     | (_, Err _) => true
+                     end
+      | (_, Err _) => true
+      end
   end.
 
 Definition holds (c : case) : bool :=
